@@ -12,6 +12,7 @@ import (
 	"reflect"
 	"sort"
 	"sync"
+	"sync/atomic"
 	"time"
 	"unsafe"
 )
@@ -240,6 +241,26 @@ func (m *Mutex) TryLock() bool {
 	m.st.take(true)
 	m.mu.Lock()
 	return true
+}
+
+// Once replaces sync.Once in the instrumented copy. The function of Do runs library code with preemption points in it: a task
+// that loses the baton there keeps this scheduler-aware lock, so a second task calling Do waits as a blocked task of the
+// simulation (with sync.Once it would block for real while holding the baton, and the run would never end).
+type Once struct {
+	done uint32
+	m    Mutex
+}
+
+func (o *Once) Do(f func()) {
+	if atomic.LoadUint32(&o.done) == 1 {
+		return
+	}
+	o.m.Lock()
+	defer o.m.Unlock()
+	if o.done == 0 {
+		defer atomic.StoreUint32(&o.done, 1)
+		f()
+	}
 }
 
 // ---- file-system seam -----------------------------------------------------------
